@@ -139,4 +139,83 @@ Proof.
         cbn [length] in Hl. rewrite firstn_all2; [exact Hs|lia].
       * left. cbn [length]. splits; auto. lia.
 Qed.
+
+Lemma minv_frame E b b2 :
+  b_out b2 = b_out b -> b_count b2 = b_count b -> b_reg b2 = b_reg b -> b_last_addr b2 = b_last_addr b ->
+  b_version b2 = b_version b -> minv ty E b -> minv ty E b2.
+Proof.
+  intros H1 H2 H3 H4 H5 (HE & [B1 B2 B3 B4 B5 B6] & HR). split; [exact HE|]. split.
+  - constructor; unfold body in *; rewrite ?H1, ?H2, ?H4, ?H5; auto.
+  - rewrite H3. exact HR.
+Qed.
+
+Lemma shape_top st k : shape st k -> exists lo t, st = lo ++ [t] /\ u_last t = None /\ lasts lo k.
+Proof.
+  revert k; induction st as [|u st IH]; intros k; cbn [shape]; [tauto|].
+  destruct k as [|c k].
+  - intros (Hu & ->). exists [], u. cbn. auto.
+  - intros (Ho & Hs). destruct (IH k Hs) as (lo & t & -> & Ht & Hl). exists (u :: lo), t. cbn [app lasts]. auto.
+Qed.
+
+Lemma compile_from_ok E b k L keep b' r :
+  minv ty E b -> sinv E (b_stack b) k L ->
+  NODE_MAX * (len E + len (b_stack b)) + 100 < U64 ->
+  compile_from b keep = (b', r) ->
+  exists E', r = Ok tt /\ minv ty E' b' /\ b_last b' = b_last b /\ b_len b' = b_len b /\
+    len E' + len (b_stack b') <= len E + len (b_stack b) /\
+    sinv E' (b_stack b') (firstn keep k) L /\
+    (((length k <= keep)%nat /\ b_stack b' = b_stack b /\ E' = E) \/
+     ((keep < length k)%nat /\ exists lo p hi a, b_stack b = lo ++ p :: hi /\ length lo = keep /\
+          b_stack b' = lo ++ [mkUnf (freeze p a) None])).
+Proof.
+  intros Hm Hs Hsz Hc. unfold compile_from in Hc.
+  destruct (shape_top _ _ (s_shape _ _ _ _ Hs)) as (lo0 & t & Hst & Ht & Hlo0).
+  pose proof (lasts_length _ _ Hlo0) as Hll.
+  rewrite Hst, rev_app_distr in Hc. cbn [rev app] in Hc.
+  destruct (compile_from_rev b (t :: rev lo0) keep None) as [b1 r1] eqn:Hc1.
+  destruct (cfr_ok (rev lo0) t b None E k L keep b1 r1) as
+    (E' & rst & -> & Hm' & G1 & G2 & Glen & Gs & Gcase); auto.
+  { cbn [vtop]. rewrite rev_involutive, <- Hst. exact Hs. }
+  { rewrite Hst in Hsz. unfold len in *. rewrite app_length in Hsz. cbn [length] in *. rewrite rev_length. lia. }
+  inversion Hc; subst b' r; clear Hc. exists E'. cbn [with_stack b_stack b_last b_len].
+  splits; auto.
+  - eapply minv_frame; [..|exact Hm']; reflexivity.
+  - rewrite Hst. unfold len in *. rewrite app_length. cbn [length] in *. rewrite rev_length in *. lia.
+  - rewrite rev_length in Gcase. destruct Gcase as [(Gl & -> & ->)|(Gl & lo & p & hi & a & Grev & Glo & Grst)].
+    + left. splits; auto; [lia|]. cbn [rev vtop]. rewrite rev_involutive. auto.
+    + right. split; [lia|]. rewrite rev_involutive in Grev. exists lo, p, (hi ++ [t]), a.
+      rewrite Hst, Grev, <- app_assoc. splits; auto.
+Qed.
+
+(* ---------- order facts about the common prefix ---------- *)
+Lemma cpl_spec : forall k bs, lex_cmp bs k <> Lt ->
+  firstn (cpl k bs) bs = firstn (cpl k bs) k /\
+  (cpl k bs <= length k)%nat /\ (cpl k bs <= length bs)%nat /\
+  (cpl k bs = length bs -> bs = k) /\
+  ((cpl k bs < length bs)%nat -> (cpl k bs < length k)%nat ->
+     exists c b k2 bs2, skipn (cpl k bs) k = c :: k2 /\ skipn (cpl k bs) bs = b :: bs2 /\ c < b).
+Proof.
+  induction k as [|c k IH]; intros [|b bs] Hcmp; cbn [cpl lex_cmp firstn length] in *.
+  - splits; auto; lia.
+  - splits; auto; try lia; discriminate.
+  - congruence.
+  - destruct (N.eqb_spec c b) as [->|Hne].
+    + rewrite N.compare_refl in Hcmp. destruct (IH bs Hcmp) as (A1 & A2 & A3 & A4 & A5).
+      cbn [firstn length skipn]. splits; try lia.
+      * f_equal; auto.
+      * intros H. f_equal. apply A4. lia.
+      * intros H1 H2. apply A5; lia.
+    + cbn [firstn skipn]. splits; auto; try lia.
+      intros _ _. exists c, b, k, bs. splits; auto.
+      destruct (N.compare_spec b c) as [X|X|X]; try congruence; lia.
+Qed.
+
+Lemma cpl_refl k : cpl k k = length k.
+Proof. induction k as [|c k IH]; cbn [cpl length]; [reflexivity|]. rewrite N.eqb_refl, IH. reflexivity. Qed.
+
+Lemma skipn_cons_length {A} n (l : list A) : (n < length l)%nat -> exists x r, skipn n l = x :: r.
+Proof.
+  revert l; induction n as [|n IH]; intros [|y l] H; cbn [length skipn] in *; try lia; eauto.
+  apply IH. lia.
+Qed.
 End Main.
